@@ -49,6 +49,7 @@ var owners = map[string][]string{
 	"resp.mapped": {"C19"},
 	"resp.relay":  {"C19"},
 	"resp.life":   {"C19", "C06"},
+	"resp.token":  {"C19"},
 	"bystander":   {"C04"},
 	"count":       {"C15", "C04"},
 	"locks":       {"C18", "C16"},
@@ -433,6 +434,33 @@ func CompareOut(exp []any, obs []Obs, pr Proj, w *World, a map[string]any) []Mis
 					if c != actor && st.Live && st.Relay == ra.String() {
 						ms = append(ms, Mismatch{"resp.relay", "relayed address shared with " + c})
 					}
+				}
+			}
+		}
+		if pc, ok := e["port"].([]any); ok && len(pc) > 0 {
+			ra, _ := o["relayaddr"].(*net.UDPAddr)
+			_, hasTok := o["token"].(string)
+			switch pc[0] {
+			case "even":
+				switch {
+				case ra != nil && ra.Port%2 != 0:
+					ms = append(ms, Mismatch{"resp.relay", fmt.Sprintf("EVEN-PORT requested, relayed port %d is odd", ra.Port)})
+				case !hasTok:
+					ms = append(ms, Mismatch{"resp.token", "success for an EVEN-PORT allocation without RESERVATION-TOKEN (on a retransmission: the same success again is required)"})
+				case o["tokenchanged"] == true:
+					ms = append(ms, Mismatch{"resp.token", "the retransmitted success carries another RESERVATION-TOKEN"})
+				}
+			case "next":
+				d := fmt.Sprint(pc[1])
+				if ra != nil && ra.Port != w.evenPort[d]+1 {
+					ms = append(ms, Mismatch{"resp.relay", fmt.Sprintf("RESERVATION-TOKEN of %s: relayed port %d, reserved %d", d, ra.Port, w.evenPort[d]+1)})
+				}
+				if hasTok {
+					ms = append(ms, Mismatch{"resp.token", "RESERVATION-TOKEN in the answer to a request that did not ask for a reservation"})
+				}
+			default:
+				if hasTok {
+					ms = append(ms, Mismatch{"resp.token", "RESERVATION-TOKEN in the answer to a request that did not ask for a reservation"})
 				}
 			}
 		}
